@@ -178,6 +178,8 @@ def run(ctx):
                     "max": mx, "bound2": b2, "maxn": mn, "targets": ras.get("targets", []), "events": False, "exact": 0}
             if ras.get("dtype"):
                 base["dtype"] = ras["dtype"]
+            if rng.random() < 0.3:
+                base["layout"] = rng.choice(["F", "T", "S", "R"])
             np_jobs.append(dict(base, tag="numpy"))
             npi = len(np_jobs) - 1
             nch = len(allch) if (ctx.tier == "thorough" or is_small) else 10
